@@ -487,3 +487,44 @@ inline void drive_c07_pair()
     vh::sample("cross-load", det, 3);
 }
 }  // namespace zio
+
+// ------------------------------------------------------------------ C07, golden files of the pinned revision
+#include <fstream>
+namespace zio {
+template <class Z>
+inline void drive_golden(const char * path)
+{
+    const std::string ts = std::string(Z::type_string()) + " [" + Z::name() + "] golden " + path;
+    vh::set_case("%s", ts.c_str());
+    std::ifstream in(path, std::ios::binary);
+    std::string bytes((std::istreambuf_iterator<char>(in)), std::istreambuf_iterator<char>());
+    if (bytes.empty()) {
+        vh::viol("golden:missing", ts);
+        return;
+    }
+    vh::ev();
+    vh::nontrivial(vh::fnv(Z::name()));
+    try {
+        std::istringstream is(bytes, std::ios::binary);
+        typename Z::field_t g(is);
+        int bad = Z::config_mismatch(g);
+        if (bad >= 0) vh::viol("golden:configuration", ts + ": layer " + std::to_string(bad) + " loads to a different configuration");
+        typename Z::field_t f = Z::make();
+        Z::fill(f);
+        std::string w = storage_differs<Z>(f, g);
+        if (!w.empty()) vh::viol("golden:values", ts + ": " + w);
+        std::string again = dump<Z>(g);
+        if (again != bytes) {
+            size_t p = 0;
+            while (p < again.size() && p < bytes.size() && again[p] == bytes[p]) ++p;
+            vh::viol("golden:redump-differs", ts + ": re-dump differs from the pinned revision's bytes at offset " + std::to_string(p));
+        }
+        std::string fresh = dump<Z>(f);
+        if (fresh != bytes) vh::viol("golden:writer-changed", ts + ": a field built today dumps to other bytes than the pinned revision wrote");
+    } catch (const std::exception & e) {
+        vh::viol("golden:rejected", ts + ": " + e.what());
+    }
+    vh::stat("goldens");
+    vh::sample("golden", ts + " bytes=" + std::to_string(bytes.size()), 3);
+}
+}  // namespace zio
